@@ -509,6 +509,124 @@ class ValidateComponent(Target):
         return []
 
 
+class ValidateDocument(Target):
+    """FlowIR.validate (document level): every problem the schema walks report (top-level structure, the list of components,
+    each component, each DoWhile document), an environment with an invalid name, a document of an unknown type, an
+    incomplete variable reference `%(name)` and every interface problem are in the list the caller gets; a document
+    without problems yields an empty list.  The real visit_all walk is interpreted (inlined)."""
+    prop = 'C11'
+    name = 'FlowIR.validate'
+    file = F
+    qualname = 'FlowIR.validate'
+    inline_class = {'cls': (F, 'FlowIR')}
+    inline = {'FlowIR.visit_all': (F, 'FlowIR.visit_all', 'cls')}
+    pure = {'ValidateMany', 'Text'}
+    max_paths = 20000
+    compare_return = False
+    trusted = ["validate_object_schema returns the list of schema problems (bounded check below)",
+               "_validate_interface returns the list of interface problems"]
+    assumptions = ["<= 2 components; each source of problems on/off independently"]
+
+    def setup(self, c):
+        def problems(tag, n=1):
+            return [errors.FlowIRInconsistency('%s problem %d' % (tag, i), {}) for i in range(n)]
+        src = {}
+        src['FlowIR'] = problems('structure') if c.one_of('structure_problem', [False, True]) else []
+        comps_not_list = c.one_of('components_is_not_a_list_of_dictionaries', [False, True])
+        src['FlowIR.components'] = problems('components-list') if comps_not_list else []
+        n = 1 + c.choice('components', 2)
+        comps = []
+        per_comp = {}
+        incomplete = c.one_of('incomplete_variable_reference', ['none', 'in-component', 'in-document'])
+        for i in range(n):
+            comp = {'stage': 0, 'name': 'comp%d' % i, 'command': {'arguments': '-n %(count)s'}}
+            if i == 0 and incomplete == 'in-component':
+                comp['command']['arguments'] = '-n %(count)'
+            if i == 1 and c.one_of('comp1.is_import', [False, True]):
+                comp['$import'] = 'loop'
+            comps.append(comp)
+            bad = c.one_of('comp%d.schema_problem' % i, ['none', 'problems', 'walk-raises'])
+            per_comp['comp%d' % i] = bad
+        env_name = c.one_of('environment_name', ['fine', '', 'None', None])
+        doc_kind = c.one_of('documents', ['none', 'dowhile', 'dowhile-with-problem', 'unknown-type'])
+        iface = problems('interface') if c.one_of('interface_problem', [False, True]) else []
+        flowir = {'components': comps, 'environments': {'default': {env_name: {'PATH': '/bin'}}},
+                  'variables': {'default': {'global': {'count': '%(n)' if incomplete == 'in-document' else '1'}}}}
+        documents = {}
+        if doc_kind in ('dowhile', 'dowhile-with-problem'):
+            documents['DoWhile'] = {'loop': {'document': 'x'}}
+        elif doc_kind == 'unknown-type':
+            documents['ForEach'] = {'x': {}}
+        doc_problems = problems('document') if doc_kind == 'dowhile-with-problem' else []
+        cls = Obj('FlowIR', FieldEnvironments=FlowIR.FieldEnvironments, FieldOutput=FlowIR.FieldOutput,
+                  FieldInterface=FlowIR.FieldInterface,
+                  type_flowir_structure=Extern('type_flowir_structure', lambda c: 'structure-schema'),
+                  type_flowir_component=Extern('type_flowir_component', lambda c, **k: 'component-schema'),
+                  type_flowir_component_import=Extern('type_flowir_component_import', lambda c: 'import-schema'),
+                  _validate_interface=Extern('_validate_interface', lambda c, *a, **k: list(iface)))
+        boom = {}
+        return State(args=[cls, flowir, documents], cls=cls, src=src, comps=comps, per_comp=per_comp, comp_problems={},
+                     comps_not_list=comps_not_list, env_name=env_name, doc_kind=doc_kind, doc_problems=doc_problems,
+                     iface=iface, incomplete=incomplete, boom=boom)
+
+    def externs(self, c, st):
+        def schema(c, obj, sch, label=None, *a, root_label=None, **k):
+            label = label if label is not None else root_label
+            if label in st.src:
+                return list(st.src[label])
+            if label.startswith('Document['):
+                return list(st.doc_problems)
+            for name, bad in st.per_comp.items():
+                if label.endswith('.%s]' % name):
+                    if bad == 'walk-raises':
+                        c.raise_(errors.FlowIRInconsistency, 'walk of %s failed' % name, {})
+                    if bad == 'problems':
+                        st.comp_problems.setdefault(name, [errors.FlowIRInconsistency('%s schema problem' % name, {})])
+                        return list(st.comp_problems[name])
+                    return []
+            return []
+        return {'validate_object_schema': Extern('validate_object_schema', schema),
+                'FlowIR.type_flowir_document_dowhile': Extern('type_flowir_document_dowhile', lambda c: 'dowhile-schema')}
+
+    def ensures(self, c, st, out):
+        if out.kind == 'raise':
+            return [('no-exception', False)]
+        got = list(out.value)
+
+        def has(cls_):
+            return any(_is_exc(g, cls_) for g in got)
+        want = list(st.src['FlowIR']) + list(st.src['FlowIR.components']) + list(st.doc_problems) + list(st.iface)
+        # the document-level validator walks the components one by one only to LOCATE a problem of the component list
+        # (`if errors_is_list:`); the per-component schema check that rejects is FlowIR.validate_component (above)
+        walked = st.comps_not_list
+        raised = 0
+        if walked:
+            for name, bad in st.per_comp.items():
+                if name not in [x['name'] for x in st.comps]:
+                    continue
+                if bad == 'problems':
+                    want += st.comp_problems.get(name, [])
+                if bad == 'walk-raises':
+                    raised += 1
+        own = [g for g in got if _is_exc(g, errors.FlowIRInconsistency) and not any(g is w for w in want) and
+               'walk of' in str(getattr(g, 'args', [''])[0] if getattr(g, 'args', None) else getattr(g, 'reason', ''))]
+        cl = [('every-schema-and-interface-problem-reaches-the-caller', all(any(w is g for g in got) for w in want)),
+              ('a-failing-component-walk-is-a-reported-problem', len([g for g in got if _is_exc(g, errors.FlowIRInconsistency)
+                                                                      and not any(g is w for w in want)]) >= raised),
+              ('an-environment-with-an-invalid-name-is-reported',
+               has(errors.FlowExceptionWithMessageError) if st.env_name in ('', 'None', None) else True),
+              ('a-document-of-unknown-type-is-reported', has(errors.FlowIRInvalidDocumentType) if st.doc_kind == 'unknown-type' else True),
+              ('an-incomplete-variable-reference-is-reported',
+               has(errors.FlowIRVariablesIncomplete) if st.incomplete != 'none' else True)]
+        clean = (not want and not raised and st.env_name == 'fine' and st.doc_kind in ('none', 'dowhile') and st.incomplete == 'none'
+                 and not any(b != 'none' for n_, b in st.per_comp.items() if n_ in [x['name'] for x in st.comps]))
+        cl.append(('a-clean-document-reports-nothing', (len(got) == 0) if clean else True))
+        return cl
+
+    def cross_compare(self, *a):
+        return []
+
+
 CycleCheck.alternatives = {'a-cycle-is-rejected': 'cycle-rejection'}
 CycleCheck.alt_case = lambda self, c, st: st.shape
 
@@ -582,6 +700,6 @@ class SchemaRejectsBounded:
 
 
 TARGETS = [ValidateReferences(), DuplicateIdentifiers(), TryReportErrors(), InitializeFunnel(), CycleCheck(),
-           PropagateReplicateCycles(), ConcreteValidate(), ValidateComponent()]
+           PropagateReplicateCycles(), ConcreteValidate(), ValidateComponent(), ValidateDocument()]
 LEMMAS = []
 BOUNDED = [SchemaRejectsBounded()]
